@@ -53,6 +53,9 @@ def n0_n1():
     # required species that also react (same spelling, the other electron spelling, listed twice) next to one that does not
     out.append(Case("N1-required-overlap", {"reactions": [rx(["H", "H"], ["H2"]), rx(["H", "e-"], ["H-"]), rx(["H2", "CR"], ["H", "H"], t=101)], "network": {"required_species": ["H2", "E", "He", "H2"]}}))
     out.append(Case("N1-catalyst", {"reactions": [rx(["H", "C"], ["H", "O"]), rx(["O"], ["C"])], "network": {}}))
+    # three-body reactions among species with long names: one term of the emitted statements is wider than a source line
+    out.append(Case("N1-long-names", {"reactions": [rx(["CH3CH2OCH2CH2OH", "CH3OCH2CH2OCH3", "HOCH2CH2OCH2CH2OH"], ["CH3CH2OCH2CH2OH", "CH3OCH2CH2OCH3+", "HOCH2CH2OCH2CH2OH", "e-"]),
+                                                    rx(["CH3OCH2CH2OCH3+", "e-", "HOCH2CH2OCH2CH2OH"], ["CH3OCH2CH2OCH3", "HOCH2CH2OCH2CH2OH"]), rx(["CH3CH2OCH2CH2OH", "CH3CH2OCH2CH2OH", "CH3OCH2CH2OCH3+"], ["HOCH2CH2OCH2CH2OH", "CH3OCH2CH2OCH3+"])], "network": {}}))
     out.append(Case("N1-pseudo", {"reactions": [rx(["H2", "CR"], ["H", "H"], t=101), rx(["CO", "PHOTON"], ["C", "O"], t=102, c=2.0), rx(["H", "CRPHOT"], ["H+", "e-"], t=120, c=1.0), rx(["H", "Photon"], ["H+", "E"], t=102)], "network": {}}))
     return out
 
